@@ -129,6 +129,55 @@ def payloads : List COp → List Bytes
   | .write p _ :: r => p :: payloads r
   | .flush :: r => payloads r
 
+/-! ### the write paths of buffered.Conn as a caller reaches them
+
+A caller that holds the connection as an `io.Writer` may probe it for a faster method
+(`io.WriteString`, the `writeStringer` probe of av/format/rtsp `Response.Write` / `Header.Write` /
+`Request.Write`, `io.Copy`'s `ReaderFrom`, an `io.ByteWriter` probe) and calls that method if the type
+has it, `Write` otherwise.  The model describes `Write` and `Flush` only: a probe that finds its
+method is NOT described (`none`), which makes a new method of the type an obligation. -/
+
+/-- how a caller hands bytes to the connection -/
+inductive Via
+  | write | writeString | readFrom | writeByte
+  deriving DecidableEq, Repr, Inhabited
+
+/-- the method the probe looks for -/
+def Via.method : Via → String
+  | .write => "Write" | .writeString => "WriteString" | .readFrom => "ReadFrom" | .writeByte => "WriteByte"
+
+/-- one hand-over of `p` through `v` to a connection whose type has the methods `methods`:
+    `Write(p)` when the probe finds nothing (or the caller calls `Write` itself) -/
+def BConn.writeVia (methods : List String) (v : Via) (c : BConn) (p : Bytes) (limited : Bool) : Option BConn :=
+  if v = .write ∨ !methods.contains v.method then some (c.write p limited) else none
+
+inductive VOp
+  | write (v : Via) (p : Bytes) (limited : Bool)
+  | flush
+  deriving DecidableEq, Repr, Inhabited
+
+def BConn.runVia (methods : List String) (c : BConn) : List VOp → Option BConn
+  | [] => some c
+  | .write v p l :: r =>
+    match c.writeVia methods v p l with
+    | some c' => c'.runVia methods r
+    | none => none
+  | .flush :: r => c.flush.runVia methods r
+
+def vpayloads : List VOp → List Bytes
+  | [] => []
+  | .write _ p _ :: r => p :: vpayloads r
+  | .flush :: r => vpayloads r
+
+/-- the same operations with the probes resolved to `Write` -/
+def vplain : List VOp → List COp
+  | [] => []
+  | .write _ p l :: r => .write p l :: vplain r
+  | .flush :: r => .flush :: vplain r
+
+/-- the method names an io.Writer-probing caller looks for -/
+def probedMethods : List String := ["WriteString", "ReadFrom", "WriteByte", "WriteRune", "WriteTo"]
+
 /-! ### av/format/rtp/packet.go `Packet.Write` -/
 
 /-- the calls `Packet.Write` makes on its writer: nothing for an unsubscribed channel
